@@ -8,6 +8,7 @@ package harness
 
 import (
 	"math/rand"
+	"sort"
 	"strings"
 	"testing"
 	"time"
@@ -426,13 +427,15 @@ func runC10(t *testing.T, seed int64, n int, out *Out) {
 			// an owner-scoped close from someone else must fail
 			if r.Intn(3) == 0 {
 				if module == "lp" && len(lpNow) > 0 {
-					for id, p := range lpNow {
+					for _, id := range sortedU64(lpNow) {
+						p := lpNow[id]
 						rs := tx(bot, &lptypes.MsgClose{Creator: bot.Addr.String(), Id: id, LpAmount: p.LeveragedLpAmount})
 						out.Line(J{"t": "c10.ownerclose", "id": wi, "module": "lp", "pos": id, "signerIsOwner": false, "code": rs.Code})
 						break
 					}
 				} else if len(perpNow) > 0 {
-					for id, m := range perpNow {
+					for _, id := range sortedU64(perpNow) {
+						m := perpNow[id]
 						rs := tx(bot, &perptypes.MsgClose{Creator: bot.Addr.String(), Id: id, Amount: m.Custody})
 						out.Line(J{"t": "c10.ownerclose", "id": wi, "module": "perp", "pos": id, "signerIsOwner": false, "code": rs.Code})
 						break
@@ -452,4 +455,13 @@ func codeStr(c uint32) string {
 		return "ok"
 	}
 	return "fail"
+}
+
+func sortedU64[V any](m map[uint64]V) []uint64 {
+	ks := make([]uint64, 0, len(m))
+	for k := range m {
+		ks = append(ks, k)
+	}
+	sort.Slice(ks, func(i, j int) bool { return ks[i] < ks[j] })
+	return ks
 }
